@@ -75,11 +75,16 @@ class StandardQTomographyBasedWeightedRelativeEntropy(WeightedRelativeEntropy):
         # calc the extend weights.
         # "extend weights" is a vector that expands the weight vector to fit the size of the probability distributions.
         # this is used in the "value" function and "gradient" function for fast computation.
-        if self.weights is not None:
+        if self.weights is not None and self.prob_dists_q is not None:
             extend_weights = []
             for weight, prob_dist in zip(self.weights, self.prob_dists_q):
                 extend_weights += [weight] * len(prob_dist)
             self._extend_weights = np.array(extend_weights, dtype=np.float64)
+
+    def set_weights(self, weights: Union[List[float], List[np.float64]]) -> None:
+        # the extend weights are derived from the weights: keep them in step
+        super().set_weights(weights)
+        self._calc_extend_weights()
 
     def set_prob_dists_q(self, prob_dists_q: List[np.ndarray]) -> None:
         """sets vectors of ``q``, by default None.
@@ -91,6 +96,7 @@ class StandardQTomographyBasedWeightedRelativeEntropy(WeightedRelativeEntropy):
         """
         self._prob_dists_q_flat = np.array(prob_dists_q, dtype=np.float64).flatten()
         super().set_prob_dists_q(prob_dists_q)
+        self._calc_extend_weights()
 
     def set_func_prob_dists_from_standard_qt(self, qt: StandardQTomography) -> None:
         """sets the function of probability distributions from StandardQTomography.
